@@ -106,9 +106,15 @@ func replayOverlayPkg(repo, pkgPattern string, harnessFiles []string, outDir, pr
 		overlay[filepath.Join(pkgDir, "zz_verif_replay_test.go")] = dst
 	}
 
-	// rewrite same-package cut targets
+	// rewrite cut targets: in the harness' own package the function delegates to verifStub_<key>; in another pint package
+	// (foreign cut, key <pkgname>_<Func>) it delegates to an exported hook variable VerifHook_<...> that a generated
+	// init() of the harness package points at verifStub_<key> — so the native replay follows the same cuts as the symbolic run.
 	var notApplied []string
 	applied := map[string]bool{}
+	type hook struct{ pkgName, importPath, hookVar, key string }
+	var hooks []hook
+	var rewriteErr error
+	rewrite := func(pkgDir, pkgName, importPath string, foreign bool) {
 	entries, _ := os.ReadDir(pkgDir)
 	for _, en := range entries {
 		name := en.Name()
@@ -134,7 +140,10 @@ func replayOverlayPkg(repo, pkgPattern string, harnessFiles []string, outDir, pr
 			}
 			keys := []string{}
 			if fd.Recv == nil {
-				keys = append(keys, fd.Name.Name, pkgName+"_"+fd.Name.Name)
+				if !foreign {
+					keys = append(keys, fd.Name.Name)
+				}
+				keys = append(keys, pkgName+"_"+fd.Name.Name)
 			} else {
 				rt := fd.Recv.List[0].Type
 				if st, ok := rt.(*ast.StarExpr); ok {
@@ -186,9 +195,35 @@ func replayOverlayPkg(repo, pkgPattern string, harnessFiles []string, outDir, pr
 			for _, fl := range fd.Type.Params.List {
 				w.Type.Params.List = append(w.Type.Params.List, nameField(fl))
 			}
-			call := &ast.CallExpr{Fun: ast.NewIdent("verifStub_" + key), Args: callArgs}
+			target := "verifStub_" + key
+			if foreign {
+				target = "VerifHook_" + strings.TrimPrefix(key, pkgName+"_")
+			}
+			call := &ast.CallExpr{Fun: ast.NewIdent(target), Args: callArgs}
 			if hasEllipsis {
 				call.Ellipsis = token.Pos(1)
+			}
+			var origCall *ast.CallExpr
+			if foreign {
+				// var VerifHook_X func(receiver, params...) results ; the original stays reachable
+				ht := &ast.FuncType{Params: &ast.FieldList{}, Results: fd.Type.Results}
+				if w.Recv != nil {
+					ht.Params.List = append(ht.Params.List, &ast.Field{Type: w.Recv.List[0].Type})
+				}
+				for _, fl := range w.Type.Params.List {
+					for range fl.Names {
+						ht.Params.List = append(ht.Params.List, &ast.Field{Type: fl.Type})
+					}
+				}
+				extra = append(extra, &ast.GenDecl{Tok: token.VAR, Specs: []ast.Spec{&ast.ValueSpec{Names: []*ast.Ident{ast.NewIdent(target)}, Type: ht}}})
+				hooks = append(hooks, hook{pkgName: pkgName, importPath: importPath, hookVar: target, key: key})
+				var fun ast.Expr = ast.NewIdent(fd.Name.Name + "__verifOrig")
+				oargs := callArgs
+				if w.Recv != nil {
+					fun = &ast.SelectorExpr{X: callArgs[0], Sel: ast.NewIdent(fd.Name.Name + "__verifOrig")}
+					oargs = callArgs[1:]
+				}
+				origCall = &ast.CallExpr{Fun: fun, Args: oargs, Ellipsis: call.Ellipsis}
 			}
 			if fd.Type.Results != nil && len(fd.Type.Results.List) > 0 {
 				// results may be named in the original; strip names for the wrapper
@@ -204,8 +239,19 @@ func replayOverlayPkg(repo, pkgPattern string, harnessFiles []string, outDir, pr
 				}
 				w.Type.Results = rl
 				w.Body = &ast.BlockStmt{List: []ast.Stmt{&ast.ReturnStmt{Results: []ast.Expr{call}}}}
+				if foreign {
+					w.Body = &ast.BlockStmt{List: []ast.Stmt{
+						&ast.IfStmt{Cond: &ast.BinaryExpr{X: ast.NewIdent(target), Op: token.NEQ, Y: ast.NewIdent("nil")}, Body: w.Body},
+						&ast.ReturnStmt{Results: []ast.Expr{origCall}}}}
+				}
 			} else {
 				w.Body = &ast.BlockStmt{List: []ast.Stmt{&ast.ExprStmt{X: call}}}
+				if foreign {
+					w.Body = &ast.BlockStmt{List: []ast.Stmt{
+						&ast.IfStmt{Cond: &ast.BinaryExpr{X: ast.NewIdent(target), Op: token.NEQ, Y: ast.NewIdent("nil")},
+							Body: &ast.BlockStmt{List: []ast.Stmt{&ast.ExprStmt{X: call}, &ast.ReturnStmt{}}}},
+						&ast.ExprStmt{X: origCall}}}
+				}
 			}
 			fd.Name = ast.NewIdent(fd.Name.Name + "__verifOrig")
 			extra = append(extra, w)
@@ -252,21 +298,61 @@ func replayOverlayPkg(repo, pkgPattern string, harnessFiles []string, outDir, pr
 		}
 		var buf bytes.Buffer
 		if err := printer.Fprint(&buf, ff, f); err != nil {
-			return nil, nil, err
+			rewriteErr = err
+			return
 		}
 		for _, w := range extra {
 			buf.WriteString("\n\n")
 			if err := printer.Fprint(&buf, token.NewFileSet(), w); err != nil {
-				return nil, nil, err
+				rewriteErr = err
+				return
 			}
 		}
 		for _, ref := range keepAlive {
 			buf.WriteString("\n\nvar _ = " + ref) // keeps the import used
 		}
 		buf.WriteString("\n")
-		dst := filepath.Join(outDir, pre+"cut_"+name)
+		dst := filepath.Join(outDir, "cut_"+pkgName+"_"+name)
 		os.WriteFile(dst, buf.Bytes(), 0o644)
 		overlay[path] = dst
+	}
+	}
+	rewrite(pkgDir, pkgName, "", false)
+	// foreign cuts: <pkgname>_<...> where <pkgname> is another package of the pint module
+	modPath := modulePath(repo)
+	seenPkg := map[string]bool{pkgName: true}
+	for k := range cuts {
+		i := strings.IndexByte(k, '_')
+		if applied[k] || i <= 0 || seenPkg[k[:i]] {
+			continue
+		}
+		seenPkg[k[:i]] = true
+		if dir := findPintPackage(repo, k[:i]); dir != "" && modPath != "" {
+			rel, _ := filepath.Rel(repo, dir)
+			rewrite(dir, k[:i], modPath+"/"+filepath.ToSlash(rel), true)
+		}
+	}
+	if rewriteErr != nil {
+		return nil, nil, rewriteErr
+	}
+	if len(hooks) > 0 {
+		var hb strings.Builder
+		hb.WriteString("//go:build verif\n\npackage " + pkgName + "\n\nimport (\n")
+		imported := map[string]bool{}
+		for _, h := range hooks {
+			if !imported[h.importPath] {
+				imported[h.importPath] = true
+				fmt.Fprintf(&hb, "\tverifhook_%s %q\n", h.pkgName, h.importPath)
+			}
+		}
+		hb.WriteString(")\n\nfunc init() {\n")
+		for _, h := range hooks {
+			fmt.Fprintf(&hb, "\tverifhook_%s.%s = verifStub_%s\n", h.pkgName, h.hookVar, h.key)
+		}
+		hb.WriteString("}\n")
+		dst := filepath.Join(outDir, "zz_verif_hooks.go")
+		os.WriteFile(dst, []byte(hb.String()), 0o644)
+		overlay[filepath.Join(pkgDir, "zz_verif_hooks.go")] = dst
 	}
 	for k := range cuts {
 		if !applied[k] {
@@ -274,4 +360,43 @@ func replayOverlayPkg(repo, pkgPattern string, harnessFiles []string, outDir, pr
 		}
 	}
 	return overlay, notApplied, nil
+}
+
+// modulePath reads the module path from go.mod.
+func modulePath(repo string) string {
+	b, err := os.ReadFile(filepath.Join(repo, "go.mod"))
+	if err != nil {
+		return ""
+	}
+	for _, l := range strings.Split(string(b), "\n") {
+		if strings.HasPrefix(l, "module ") {
+			return strings.TrimSpace(strings.TrimPrefix(l, "module "))
+		}
+	}
+	return ""
+}
+
+// findPintPackage finds the directory under repo/internal or repo/cmd whose Go package is called name.
+func findPintPackage(repo, name string) string {
+	found := ""
+	for _, root := range []string{filepath.Join(repo, "internal"), filepath.Join(repo, "cmd")} {
+		filepath.WalkDir(root, func(p string, d os.DirEntry, err error) error {
+			if err != nil || !d.IsDir() || found != "" {
+				return nil
+			}
+			files, _ := filepath.Glob(filepath.Join(p, "*.go"))
+			for _, f := range files {
+				if strings.HasSuffix(f, "_test.go") {
+					continue
+				}
+				pf, err := parser.ParseFile(token.NewFileSet(), f, nil, parser.PackageClauseOnly)
+				if err == nil && pf.Name.Name == name {
+					found = p
+				}
+				break
+			}
+			return nil
+		})
+	}
+	return found
 }
